@@ -12,9 +12,15 @@ import random
 
 from vf.core import Ctx, cfg_text, main_wrapper, Machinery
 from vf import clcommon as cl
-from icalendar import Event, Calendar
+from icalendar import Event, Calendar, Todo
 
 ALPHA = {97, 59, 58, 44, 34, 92, 37, 50, 67, 61, 13, 10, 32}
+
+
+def _same_ps(got, want):
+    g = sorted((cl.S(p["k"]).upper(), [cl.S(v) for v in p["vals"]]) for p in got)
+    w = sorted((cl.S(p["k"]).upper(), [cl.S(v) for v in p["vals"]]) for p in want)
+    return g == w
 
 
 def run(ctx: Ctx):
@@ -49,11 +55,38 @@ def run(ctx: Ctx):
         ctx.sample({"family": fam, "vector": {k2: r.prints[len(r.prints) // 2][k2] for k2 in ("c", "line", "outcome", "okValue")}})
     cl.record_random(ctx, ev, meta, 300 if ctx.quick else 4000,
                      [97, 59, 58, 44, 34, 92, 37, 50, 67, 61, 13, 10, 32, 66, 69, 71, 73, 78, 1, 0, 127, 9], "C05")
+    # Unicode hazards as parameter values and values: the line and the component read back must carry them unchanged
+    from vf import hazards as _hz
+    for i, hs in enumerate(_hz.strings()):
+        c = {"ps": [{"k": cl.L("CN"), "list": False, "vals": [cl.L(hs)]}] if i % 2 == 0 else
+             [{"k": cl.L("MEMBER"), "list": True, "vals": [cl.L(hs), cl.L("b" + hs)]}],
+             "kind": ("text", "raw")[i % 2], "v": cl.L("v " + hs)}
+        if any(ch in (34, 10, 13) or ch < 32 or ch == 127 for p in c["ps"] for v in p["vals"] for ch in v):
+            continue
+        ctx.case(("hazard", hs), True)
+        refused, line, parts = cl.do_line(c)
+        ev.append({"k": "line", "c": c, "refused": refused, "line": line or [], "parts": parts or {"ok": False}})
+        meta.append({"c": c, "path": "Contentline", "hazard": True})
+        for cls in (Event, Todo):
+            out, detail = cl.do_component(c, cls)
+            ctx.evaluations += 1
+            if out == "exact":
+                got = cl.alpha_params(detail[cl.NAME].params)
+                val = cl.L(str.__str__(detail[cl.NAME]))
+                if not _same_ps(got, c["ps"]) or val != c["v"]:
+                    ctx.fail("P:C05:value-roundtrip", {"c": c, "cls": cls.__name__, "impl_equal": False, "hazard": True}, [got, val], None)
+            elif out != "refused":
+                ctx.fail("P:C05:component-no-injection", {"c": c, "cls": cls.__name__, "impl_equal": False, "hazard": True}, [out, detail if out == "corrupted" else None], None)
     # hostile whole-text payloads through every text-like value type
     rnd = random.Random(ctx.seed)
     payloads = ["\r\nBEGIN:VEVENT\r\nSUMMARY:x\r\nEND:VEVENT", "a\nATTENDEE:mailto:x", "x\r\n END:VCALENDAR",
                 "\\\nX:1", "a\\", "a\\\\", "\";X=1:", "a:b;c=d", "\x00\x01", "%0D%0A", "\u2028BEGIN:X", "\x0bBEGIN:X",
                 "\r", "\rBEGIN:VEVENT", "a\r\n", "\\n\nEND:VEVENT"]
+    # code points that become (or look like) delimiters under Unicode normalisation / line splitting, followed by structure
+    from vf import hazards
+    for cp in hazards.LOOKALIKE_DELIMS:
+        d = chr(cp)
+        payloads += ["Smith" + d + "ROLE=CHAIR", "x" + d + "BEGIN:VEVENT", d + "a=b" + d + "c", "x" + d + "\r\nEND:VEVENT"[:1] + "y", "v" + d]
     from icalendar.prop import vText, vUri, vCalAddress, vInline
     for pay in payloads:
         for mk in (lambda s: s, vUri, vCalAddress, vInline, lambda s: vText(s)):
